@@ -271,6 +271,12 @@ def _try_subclass(schemas, name, versioned):
             cls = schemas.get(name, ref.version) if versioned else schemas.get(name)
         elif route == "getitem":  # group[name] / group[(name, version)]
             cls = schemas[(name, ref.version)] if versioned else schemas[name]
+        elif route == "fields_origin":  # the class a field was defined in, reached through the handle's Fields
+            h = schemas.get(name, ref.version) if versioned else schemas[name]
+            fields = list(h.Fields.keys())
+            if not fields:
+                return versioned
+            cls = h.Fields[fields[0]].origin
         elif route == "handle_get":  # a version-less handle used as key does not state a version either
             cls = schemas.get(schemas[name], ref.version) if versioned else schemas.get(schemas[name])
         elif route == "handle_getitem":
